@@ -75,6 +75,16 @@ Theorem no_truncated_as_complete :
        s_phase (fst (nxt redir x i)) = PError).
 Proof. exact no_truncated_as_complete_proof. Qed.
 
+(** On an HTTP/1 frontend, a response relayed under "Connection: close" (the
+    only delimiter of a body without a length) ends together with the
+    connection: nothing can be written behind it. *)
+Theorem close_delimited_ends_connection :
+  forall (redir : option N) (h2 : bool) (history : list input) (i : input),
+    let x := run_st redir (fresh, init_conn h2) history in
+    existsb is_relay_end (evs redir x i) = true -> c_h2 (snd x) = false -> s_ka (fst x) = false ->
+    existsb is_close (evs redir x i) = true /\ c_closed (snd (nxt redir x i)) = true.
+Proof. exact close_delimited_ends_connection_proof. Qed.
+
 (** 4. bounded_wait (invariant form): after any history a live session has its
     frontend timer armed, and whatever is queued and sendable has WRITABLE armed
     in interest and event, so the queued answer is flushed without waiting for
@@ -103,5 +113,8 @@ Example one_answer_nonvacuous :
   /\ run gen_tables None (fresh, init_conn false)
       [IReqHead; IConnect None; IReqSent; IFrontTimeout] = [EvDefault 504]
   /\ run gen_tables (Some 308%N) (fresh, init_conn false)
-      [IReqHead; IConnect (Some KHttpsRedirect)] = [EvDefault 308].
+      [IReqHead; IConnect (Some KHttpsRedirect)] = [EvDefault 308]
+  /\ run gen_tables None (fresh, init_conn false)
+      [IReqHead; IConnect None; IReqSent; IBackNoKeepAlive; IBackHead; IBackClose; IFrontWrite true]
+     = [EvRelayStart; EvRelayEnd; EvClose].
 Proof. vm_compute. repeat split; reflexivity. Qed.
